@@ -29,6 +29,7 @@ import (
 	"github.com/gr33nbl00d/caddy-revocation-validator/crl/crlstore"
 
 	"verif/harness/lab/crlgen"
+	"verif/harness/lab/der"
 	"verif/harness/lab/gen"
 	"verif/harness/lab/l2"
 	"verif/harness/lab/origin"
@@ -273,7 +274,7 @@ func main() {
 		return
 	}
 	run := report.New("C09", "fault_enumeration")
-	run.Rule("faults applied to the real store while the checker holds it: F1 database handle closed under the repository; F2 byte flips / truncation of every table file and the MANIFEST at seeded offsets and single-bit flips inside the stored key of a listed record, then restart, every entry of the list probed; F3 a listed record's value overwritten (garbage / empty / truncated) through a second handle while the checker is down; F4 Cleanup overlapping in-flight lookups (both backends); F5 EIO injected by strace into every pread64 from the N-th on in a child doing lookups on a prepared disk image; F7 the live database directory removed from work_dir followed by a refresh; F6 a swap that fails half way (target made non-renamable between 'old moved aside' and 'new moved in'), then lookups of a configured CRL; for listed and unlisted certificates at Repository.IsRevoked and CRLRevocationChecker.IsRevoked; oracle: under an active fault (Revoked=false, err=nil) for a listed certificate is a violation; for an unlisted one only when the fault provably hit the read; non-trivial = fault case in which the fault surfaced as an error or verifiably missed the read; distinct = fault case descriptor")
+	run.Rule("faults applied to the real store while the checker holds it: F1 database handle closed under the repository; F2 byte flips / truncation of every table file and the MANIFEST at seeded offsets and single-bit flips inside the stored key of a listed record, then restart, every entry of the list probed; F3 a listed record's value overwritten (garbage / empty / truncated / one bit of its serialNumber flipped) through a second handle while the checker is down; F4 Cleanup overlapping in-flight lookups (both backends); F5 EIO injected by strace into every pread64 from the N-th on in a child doing lookups on a prepared disk image; F7 the live database directory removed from work_dir followed by a refresh; F6 a swap that fails half way (target made non-renamable between 'old moved aside' and 'new moved in'), then lookups of a configured CRL; for listed and unlisted certificates at Repository.IsRevoked and CRLRevocationChecker.IsRevoked; oracle: under an active fault (Revoked=false, err=nil) for a listed certificate is a violation; for an unlisted one only when the fault provably hit the read; non-trivial = fault case in which the fault surfaced as an error or verifiably missed the read; distinct = fault case descriptor")
 	run.Assume("strict CDP mode for on-disk corruption cases, so that a store that cannot even be opened is denied by the strict gate rather than silently unknown", "F5: strace injects EIO into pread64 (goleveldb table reads) of a child process from the N-th call on, N per thread")
 	scratch, _ := report.Scratch("C09")
 	sut.QuietStderr(filepath.Join(scratch, "stderr.log"))
@@ -316,7 +317,8 @@ func main() {
 			s.judge("F1-db-closed", "disk", l, true, fmt.Sprintf("F1 database closed under the repository, n=%d", n))
 		}})
 		// F3
-		for _, val := range []string{"garbage", "empty", "truncated"} {
+		// "serial-bit-flipped": the record still decodes, but one bit of its serialNumber INTEGER changed
+		for _, val := range []string{"garbage", "empty", "truncated", "serial-bit-flipped"} {
 			val := val
 			jobs = append(jobs, job{fmt.Sprintf("F3 %s n=%d", val, n), func(s *scn) {
 				l, err := s.load("disk", n, true, false)
@@ -347,6 +349,14 @@ func main() {
 							nv = []byte{}
 						case "truncated":
 							nv = old[:len(old)/2]
+						case "serial-bit-flipped":
+							nv = append([]byte(nil), old...)
+							if tree, err := der.Parse(nv); err == nil && len(tree.Children) > 0 && tree.Children[0].Tag == 0x02 {
+								c := tree.Children[0]
+								nv[c.Off+c.HdrLen+c.Len-1] ^= 0x01
+							} else {
+								continue
+							}
 						}
 						_ = db.Put(key, nv, nil)
 						patched++
